@@ -9,6 +9,8 @@ data = json.loads(Path(src).read_text())
 dst = HOME / "replays" / "known" / f"{fid}.json"
 dst.write_text(json.dumps(data, indent=1))
 kf = HOME / "known_findings.json"
+import fcntl
+_lock = open(HOME / ".known.lock", "w"); fcntl.flock(_lock, fcntl.LOCK_EX)
 k = json.loads(kf.read_text())
 k["findings"] = [e for e in k["findings"] if e["id"] != fid]
 k["findings"].append(dict(id=fid, property=data["property"], status="known", what=what,
